@@ -77,6 +77,9 @@ class Interp:
                 if v == 0:
                     of[i] = zero
                     continue
+                if v == np.iinfo(np.int64).min:
+                    # jnp.take / gather with mode=fill on an out-of-bounds index: the float code yields NaN
+                    raise ProducesNaN(f"{prim.name}: out-of-bounds index is filled with NaN")
                 for (st, pool) in pools:
                     if st <= v < st + pool.size:
                         of[i] = pool[v - st]
@@ -543,6 +546,10 @@ class Interp:
             sign[bidx] = self.ctx.ONE
             ld[bidx] = (d * d).log() * Fraction(1, 2)
         return [sign, ld]
+
+
+class ProducesNaN(Exception):
+    pass
 
 
 class TraceRaised(Exception):
